@@ -95,6 +95,8 @@ class ServerWorld:
         self.producer = {}         # datagram bytes -> id of the client that produced them (replays keep their producer)
         self.goodbye = set()       # addresses whose client said goodbye / was kicked: their disconnect is not a silence time-out
         self.stopped_req = False
+        self.handed = {}           # (connection object, message bytes) -> times handed to handle_message
+        self.uniq = 0
         self.raise_in = None       # restrict handler exceptions to these events (None: any)
         self.on_disconnect = None  # optional application behaviour inside the handler's disconnect event (e.g. "match over": close the other players)
 
@@ -205,9 +207,15 @@ class ServerWorld:
         if what == "disconnect":
             cause = "other" if (self.stopped_req or client.addr in self.goodbye) else "silence"
             self.goodbye.discard(client.addr)
+        rep = 0
+        if what == "msg":
+            # how often this very message (same connection object, same bytes) was handed to the handler before: the drivers never send the same bytes twice
+            key = (self.oid(client), bytes(msg))
+            rep = self.handed.get(key, 0)
+            self.handed[key] = rep + 1
         self.ev.append(dict(ev="h", now=self.now(), what=what, cause=cause, obj=self.oid(client), a=self.aid(client.addr) if client is not None else 0,
                             token=(client.token if client is not None else 0) % 1000003, tid=threading.get_ident() % 1000003, raised=0, tag=tag if tag < 2 ** 31 else 0,
-                            n=len(msg)))
+                            n=len(msg), rep=rep))
 
     def sealed_for(self, d, addr):
         """1 if the datagram opens under the session key of the connection at that address (harness's own AES-GCM), 2 if it is a plain CRC datagram, 0 otherwise"""
